@@ -20,10 +20,16 @@ def _pid():
     return os.getpid()
 
 
+EXC_KINDS = {'custom': InjectedError, 'ValueError': ValueError, 'AssertionError': AssertionError, 'EOFError': EOFError,
+             'BrokenPipeError': BrokenPipeError, 'TypeError': TypeError, 'KeyError': KeyError}
+
+
 class TenTimes:
-    """filter(x) = (pid, 10*x); raises InjectedError(x) for x in faults.  Records who handled what."""
-    def __init__(self, faults=()):
+    """filter(x) = (pid, 10*x); raises for x in faults (InjectedError(x), or the builtin exception type named by
+    `exc` - user filters raise ordinary exceptions too).  Records who handled what."""
+    def __init__(self, faults=(), exc='custom'):
         self.faults = tuple(faults)
+        self.exc = exc
 
     def filter(self, x):
         pid = _pid()
@@ -32,7 +38,7 @@ class TenTimes:
             sched.record(('handled', pid, x))
         except Exception:
             pass
-        if x in self.faults: raise InjectedError(x)
+        if x in self.faults: raise EXC_KINDS[self.exc](x)
         return (pid, 10 * x)
 
 
